@@ -210,6 +210,10 @@ var hostileFragments = []string{
 	"S99999999999999999999F1", "S1F99999999999999999999", "S0F0", "S128F256", "S-1F1", "SF", "S1F", "S1F1W", "S1F1[W]", "W", "[W]", "[w", "H->E", "H<-", "H<->", "h<->e",
 	"[18446744073709551616]", "[9223372036854775807]", "[9223372036854775808]", "[4294967296..]", "[99999999999]", "[3000000000]", "[..99999999999]", "[99999999999..]", "[5..2]", "[ 1 .. 2 ]", "[1...2]", "[-1]", "[0x10]",
 	"//", "// comment", "//\n", "/", "/*", "*/", "#", "@", "\\", "'", "`", "é", "漢字", "😀", "\u202e", "T", "F", "t", "TRUE", "L", "A", "B", "BOOLEAN", "F4", "F8", "I1", "I8", "U1", "U8", "l", "a", "X", "x", "x[0]", "x[", "x[1][2]", "_", "_1", "1x", "x.y",
+	// characters that the standard library's unicode predicates accept but ASCII tests do not: decimal digits of other scripts,
+	// letters, letter-like numbers; alone and next to the characters that start or continue a number/name/size
+	"\u0663", "\u0969", "\uff13", "\U0001d7d9", "\u00b2", "\u2167", ".\u0663", "e.\u0663", "E.\uff13", "x.\u0969", "1\u0663", "\u06631", "-\u0663", "0x\u0663", "1e\u0663", "[\u0663]", "[1..\u0663]",
+	"S\u0663F1", "S1F\u0663", "x[\u0663]", "...[\u0663]", "\u0663.", ".\u0663.", "\u0131", "\u212a", "\u017f", "\u0130", "\uff37", "\uff33\uff11\uff26\uff11",
 	"\"\"", "\"a\"", "\"é\"", "\"\\\"", "\"a\nb\"", "\"\n", "0x7F", "0x80", "127", "128", "255", "256", "-1", "1.5", ".5", "5.", "1_000", "0b2", "08", "0o8", "0xG",
 }
 
@@ -334,7 +338,7 @@ func c06InitialJobs(c *ctx, r *rng.R) []iso.Job {
 	}
 	// every hostile fragment in every structural position
 	for _, f := range hostileFragments {
-		for _, tmpl := range []string{"%s", "S1F1 %s", "S1F1 W %s .", "S1F1 W H->E name %s .", "S1F1 W <%s> .", "S1F1 W <L %s> .", "S1F1 W <A %s> .", "S1F1 W <U1 %s> .", "S1F1 W <U1%s 1> .", "S1F1 W <L <B 1> %s <B 2>> .", "S1F1 W <L <B 1>> %s", "S1F1 W <L> . %s S2F2 ."} {
+		for _, tmpl := range []string{"%s", "S1F1 %s", "S1F1 W %s .", "S1F1 W H->E name %s .", "S1F1 W <%s> .", "S1F1 W <L %s> .", "S1F1 W <A %s> .", "S1F1 W <U1 %s> .", "S1F1 W <U1%s 1> .", "S1F1 W <L <B 1> %s <B 2>> .", "S1F1 W <L <B 1>> %s", "S1F1 W <L> . %s S2F2 .", "S1F1 <L> .%s", "S1F1 W <L <A \"x\">>.%s", "S1F1 <A e%s>.", "S1F1 <A %s>.", "S1F1 W <U1 1%s> ."} {
 			add("hostile-fragment", strings.Replace(tmpl, "%s", f, 1), "")
 		}
 	}
